@@ -35,7 +35,8 @@ Inductive top :=
 | OBulk (from n : N)                                 (* a[from+i] = (from+i) mod 40 + 1 for i < n, strict mode *)
 | OSetLenRe (refl : bool) (n eff k : N)             (* a.length = {valueOf(){ EFFECT; return n }}; eff 1 = freeze(a),
                                                         2 = defineProperty(a,'length',{writable:false}), 3 = a[k] = 7 *)
-| OGoTrunc (k : N).                                  (* Go side: buf = buf[:k] (Go slice wrapper only) *)                       (* twin only: the storage was switched (no-op for S) *)
+| OGoTrunc (k : N)
+| ONullProto.                                        (* Object.setPrototypeOf(a, null) *)                                  (* Go side: buf = buf[:k] (Go slice wrapper only) *)                       (* twin only: the storage was switched (no-op for S) *)
 Arguments OSet _ (_ _)%N.  Arguments OSetLen _ _ _%N.  Arguments ODefine _ _%N _.  Arguments ODefLen _ _%N _.
 Arguments ODelete _ _%N.  Arguments OGet _%N.  Arguments OHas _%N.  Arguments OProto (_ _ _ _)%N.
 Arguments OPush _%N.  Arguments OUnshift _%N.  Arguments OSplice _%Z _%Z _%N.  Arguments OFill _%N _%Z _%Z.
@@ -179,6 +180,7 @@ Definition step (a : A) (o : top) : A * result :=
       (a', if e =? 0 then RU else RErr e)
   | OSetLenRe refl n eff k => let '(a', e) := o_setlen_re O a n eff k in (a', eres refl e)
   | OGoTrunc k => (o_gotrunc O a k, RU)
+  | ONullProto => (o_with_proto O a [], RU)
   end.
 
 Definition dump_eqb_dec (x y : dump) : bool :=
@@ -234,15 +236,13 @@ Definition i_integ (m : option bool) (a : iarr) : iarr :=
   match m with None => i_prevent a | Some f => i_integrity f a end.
 Definition i_with_proto (a : iarr) (p : list (N * element)) : iarr :=
   let b := i_base a in i_with_base a (mkB (b_ext b) (b_ot b) p).
-(* arrayObject.setOwnStr("length") (array.go:266): writable check, toLengthUint32(val) (user code), then
-   a.setLength on the receiver captured BEFORE the conversion: if the conversion switched the storage the update goes
-   to the dead object (open finding C07-N14) *)
+(* arrayObject.setOwnStr("length") (array.go:266) after 3394dd8: writable check, toLengthUint32(val) (user code), then
+   the update is dispatched to the CURRENT storage object, which checks [[Writable]] again *)
 Definition same_kind (a b : iarr) : bool := match a, b with ID _, ID _ => true | IS _, IS _ => true | _, _ => false end.
 Definition i_setlen_re (a : iarr) (n eff k : N) : iarr * N :=
   if negb (i_lw a) then (a, 1) else
   let a' := if eff =? 1 then i_integrity true a else if eff =? 2 then i_with_lw a false else fst (i_set a k 7) in
-  if same_kind a a' then let '(a'', ok) := i_setLength a' n in (a'', berr ok)
-  else (a', berr (snd (i_setLength a n))).
+  let '(a'', ok) := i_setLength a' n in (a'', berr ok).
 Definition opsI : oops iarr :=
   mkO iarr primI i_define i_assign_len i_define_length i_getown i_integ (fun a => b_proto (i_base a))
       i_with_proto i_export i_dump i_setlen_re (fun a _ => a).
@@ -421,30 +421,15 @@ Definition values_longer (a : iarr) : bool :=
   match a with ID d => da_length d <? nlen (da_values d) | _ => false end.
 
 (* tags name the region of a recorded OPEN finding of the faithful model I in which a divergence from S is
-   expected (see known/C07.json):
-   13 = C07-N13: the growing splice fast path (builtin_array.go:451) writes new indices without consulting
-        Array.prototype: an inherited accessor / non-writable element at an index in [length, newLength) is ignored;
-   14 = C07-N14, see below *)
+   expected (see known/C07.json); 13 and 14 were C07-N13 / C07-N14, repaired by bbc0a30 / 3394dd8 *)
 Definition tags (a : iarr) (o : top) : list N :=
-  match o, a with
-  | OSplice st dc items, ID d =>
-      let len := da_length d in
-      let start := rel st len in
-      let del := match dc with None => len - start | Some z => N.min (Z.to_N (Z.max z 0)) (len - start) end in
-      let newlen := len - del + nlen items in
-      if d_guard d && (len <? newlen) &&
-         existsb (fun p => (len <=? fst p) && (fst p <? newlen) &&
-                           match snd p with EData _ w _ _ => negb w | EAcc _ _ _ _ => true end)
-                 (b_proto (da_base d))
-      then [13] else []
-  | OSetLenRe _ n eff k, _ =>
-      (* 14 = C07-N14: the valueOf of the assigned length switches the storage: the update goes to the dead object *)
-      (if i_lw a && (eff =? 3) && negb (same_kind a (fst (i_set a k 7))) then [14] else []) ++
+  match o with
+  | OSetLenRe _ n eff k =>
       (* 15 = C07-N15: the valueOf makes "length" read-only and returns the CURRENT length: nothing has to change, the
          specification returns true (OrdinaryDefineOwnProperty with the same value), goja's setLength refuses *)
       (let a' := if eff =? 1 then i_integrity true a else if eff =? 2 then i_with_lw a false else a in
        if i_lw a && negb (i_lw a') && (n =? i_len a') then [15] else [])
-  | _, _ => []
+  | _ => []
   end.
 
 Definition tags_at (c : tcase) (ops : list top) (n : N) : list N :=
